@@ -41,7 +41,7 @@ theorem SwapRes.table_u {s' : SStore} {shF : Nat → Option Node} {up lo : List 
     (hres : SwapRes ext s u s' shF up lo) : s'.table u = up := by
   rw [hres.tables]
   have : ¬ (u = u + 1) := by omega
-  simp [this]
+  simp
 
 theorem levelDownS_denotes (hal : AllocOK al) (hord : OrderOK ord) (hinv : Inv ext s)
     (hu : u + 1 < s.tables.length) {x : Edge} {t : BDD} (hd : Denotes s.h.abs x t)
